@@ -9,6 +9,7 @@ import seqcheck
 import mccheck
 import meta
 import findings
+import parcheck
 
 # ---------------------------------------------------------------------------------------
 # sequential-engine properties (monitor: specs/core/CoreTrace.tla)
@@ -34,7 +35,7 @@ SEQ = {
     "C07": dict(families=["churn", "reclaim", "struct", "intern"], needs=["new", "int", "op:set"],
                 rule="churn family (conditional struct creation, interned revisions=1..3 with a coarse hash so that slots "
                      "are shared, long write-heavy histories); non-trivial = structs and interned values created and writes"),
-    "C08": dict(families=["intern", "churn", "reclaim"], needs=["int", "op:set"],
+    "C08": dict(families=["intern", "churn", "reclaim"], par=["parintern"], needs=["int", "op:set"],
                 rule="interning from several queries over a small value domain across revisions; non-trivial = interning "
                      "and a write in one history"),
     "C09": dict(families=["churn", "reclaim", "intern"], needs=["int", "irec", "op:set"],
@@ -42,7 +43,7 @@ SEQ = {
     "C10": dict(families=["spec"], needs=["spec", "new", "op:set"],
                 rule="spec family: creators that specify / call the specifiable function in both orders; "
                      "non-trivial = a specify, a struct creation and a write"),
-    "C11": dict(families=["accum"], needs=["op:accum", "accv", "op:set"],
+    "C11": dict(families=["accum", "accchain"], scale=2, needs=["op:accum", "accv", "op:set"],
                 rule="accum family; non-trivial = accumulated() requested, values pushed and a write"),
     "C12": dict(families=["fix"], needs=["wic", "op:set"],
                 rule="fix family: 1-4 mutually recursive functions with cycle_initial = bottom (0) over 3-bit sets, bodies are "
@@ -51,7 +52,7 @@ SEQ = {
                      "history iterated a cycle and wrote an input"),
     "C13": dict(families=["fb"], needs=["cres", "op:set"],
                 rule="fb family: same shapes with cycle_result; non-trivial = a fallback was used and an input written"),
-    "C14": dict(families=["pcycle"], needs=["panic:cycle", "op:set"],
+    "C14": dict(families=["pcycle"], par=["parpcycle"], needs=["panic:cycle", "op:set"],
                 rule="pcycle family: plain functions whose backward calls are input-controlled; non-trivial = a cycle "
                      "panic occurred and an input was written"),
     "C15": dict(families=["diverge"], needs=["panic:iterlimit", "op:set"], scale=0.1,
@@ -60,6 +61,23 @@ SEQ = {
     "C23": dict(families=["core", "lru", "struct", "intern", "mixed"], needs=["drop", "retained"],
                 rule="value lifetime discipline over all sequential families; non-trivial = values dropped and "
                      "references retained across a read phase"),
+}
+
+PAR = {
+    "C16": dict(par=["pardag"], needs=["hk:sync_claim", "we", "tstart"],
+                rule="pardag family: acyclic programs with shared sub-queries, 3 rounds (writes between rounds) of 2-4 real threads "
+                     "on clones issuing 1-4 requests each, seeded schedule jitter; non-trivial = threads ran and functions executed"),
+    "C17": dict(par=["pardag"], monitors=("par",), needs=["hk:sync_claim", "we", "tstart"],
+                rule="same runs as C16; every WillExecute is checked against the set of keys already executed in the revision"),
+    "C18": dict(par=["parfix", "parfb"], needs=["hk:sync_claim", "we", "tstart"],
+                rule="fixpoint / fallback cycle programs entered concurrently at different members from 2-4 threads"),
+    "C19": dict(par=["pardag", "parfix", "parfb", "parpcycle", "parwrite", "parcancel", "parpanic"], monitors=("sync",), needs=["hk:sync_claim", "tstart"],
+                rule="all parallel families; every protocol event (hook H1) is applied to the SyncOps protocol state and its guard "
+                     "and the protocol invariants are evaluated; non-trivial = threads ran and claimed keys"),
+    "C20": dict(par=["parwrite", "parwritefix"], monitors=("par",), needs=["wproc", "tstart", "dscf"],
+                rule="readers on clones while the main handle writes (input write / synthetic write) at a seeded point"),
+    "C21": dict(par=["parcancel", "parcancelfix"], monitors=("par",), needs=["cancel_begin", "tstart"],
+                rule="local cancellation tokens cancelled at seeded points while 2-4 threads run requests (incl. fixpoint programs)"),
 }
 
 TIERS = {
@@ -108,6 +126,8 @@ def run_seq(pid, tier, seed, replay):
                               max(10, int(t["njobs"] * cfg.get("scale", 1))), t["nops"] * NOPS_FACTOR.get(fam, 1), wd)
                     for i, fam in enumerate(fams)]
             results += [f.result() for f in futs]
+        if cfg.get("par"):
+            results += run_par_families(binary, cfg["par"], tier, seed, wd, ("par",))
     return finish(pid, tier, seed, results, cfg, known, wd, t0, mc=mcinfo)
 
 
@@ -227,7 +247,40 @@ def finish(pid, tier, seed, results, cfg, known, wd, t0, mc):
     return 0
 
 
+PAR_TIERS = {"quick": dict(njobs=60), "thorough": dict(njobs=2000)}
+
+
+def run_par_families(binary, fams, tier, seed, wd, monitors=("par", "sync")):
+    t = PAR_TIERS[tier]
+    # thread-heavy runs: keep the number of concurrently running drivers small, TLC runs are single-threaded
+    with ThreadPoolExecutor(max_workers=4) as ex:
+        futs = [ex.submit(parcheck.run_par_family, binary, fam, seed * 1000 + 500 + i, t["njobs"], wd, None, 3, monitors)
+                for i, fam in enumerate(fams)]
+        return [f.result() for f in futs]
+
+
+def run_par(pid, tier, seed, replay):
+    t0 = time.time()
+    cfg = PAR[pid]
+    binary, bt = build_harness("default")
+    log(f"[{pid}] harness built in {bt:.1f}s")
+    wd = workdir(f"{pid}-{tier}")
+    known = load_known()
+    if replay:
+        rp = json.load(open(replay))
+        jobs = [rp["job"]] if "job" in rp else rp["jobs"]
+        results = [parcheck.run_par_family(binary, rp.get("family", "replay"), seed, 0, wd, jobs=jobs)]
+    else:
+        results = run_par_families(binary, cfg["par"], tier, seed, wd, cfg.get("monitors", ("par", "sync")))
+    extra = {"monitors": list(cfg.get("monitors", ("par", "sync"))), "protocol_events": {"blocked": sum(r["proto"][0] for r in results), "releases": sum(r["proto"][1] for r in results),
+                                 "transfers": sum(r["proto"][2] for r in results), "cycles_reported": sum(r["proto"][3] for r in results)},
+             "hangs": sum(r["hangs"] for r in results)}
+    return finish(pid, tier, seed, results, cfg, known, wd, t0, mc=extra)
+
+
 def run(pid, tier, seed, replay):
+    if pid in PAR:
+        return run_par(pid, tier, seed, replay)
     if pid in SEQ:
         return run_seq(pid, tier, seed, replay)
     log(f"unknown property {pid}")
